@@ -1,5 +1,8 @@
 //! Defines error in report functions.
 
+#[cfg(okane_verif)]
+#[allow(unused_imports)]
+use crate::verif::std;
 use std::{fmt::Display, path::PathBuf};
 
 use annotate_snippets::{Annotation, Level, Snippet};
